@@ -461,7 +461,7 @@ func TestC10(t *testing.T) {
 	}
 	total := 160 / cfg.NShards
 	if cfg.Thorough() {
-		total = 2000 / cfg.NShards
+		total = 6000 / cfg.NShards
 	}
 	if total < 1 {
 		total = 1
